@@ -673,7 +673,7 @@ def main():
             kind = "hang"
         if "AddressSanitizer" in text or "LeakSanitizer" in text or "MemorySanitizer" in text or "ThreadSanitizer" in text:
             kind = "sanitizer"
-        elif "Undefined Behavior" in text or "error: unsupported operation" in text or "memory leaked" in text:
+        elif fl.startswith("miri") and ("Undefined Behavior" in text or "error: unsupported operation" in text or "memory leaked" in text):
             kind = "miri"
         elif fl == "valgrind" and r["rc"] == 66:
             kind = "valgrind"
